@@ -9,6 +9,7 @@ fn factory(model: &str) -> Option<Factory> {
         "proof_graph" => Box::new(|c: &Value| Box::new(models::proof_graph::PG::new(c)) as Box<dyn Model>),
         "modules" => Box::new(|c: &Value| Box::new(models::modules::MM::new(c)) as Box<dyn Model>),
         "tms" => Box::new(|c: &Value| Box::new(models::tms::TmsM::new(c)) as Box<dyn Model>),
+        "kb" => Box::new(|c: &Value| Box::new(models::kb::KB::new(c)) as Box<dyn Model>),
         _ => return None,
     })
 }
@@ -36,6 +37,7 @@ fn main() {
                 None => 2,
             }
         }
+        Some("kbstress") => models::kb::cmd_stress(&args),
         _ => {
             eprintln!("usage: vh replay|replay-one <model> <file> [opts]");
             2
